@@ -550,7 +550,7 @@ impl Value {
 
     pub fn short(&self) -> String {
         let s = self.render();
-        crate::report::truncate(&s, 200)
+        crate::truncate(&s, 200)
     }
 
     pub fn render(&self) -> String {
@@ -646,3 +646,119 @@ pub fn lit_value(m: &Module, ty: &Ty, l: &Lit) -> Value {
 }
 
 pub type Env = BTreeMap<String, Ty>;
+
+// -------------------------------------------------------------------------------------------------
+// abstract validity (what the ASN.1 type permits, independent of any encoding rule)
+// -------------------------------------------------------------------------------------------------
+
+#[derive(Clone, Debug, PartialEq, Eq)]
+pub enum Validity {
+    /// inside every constraint root
+    InRoot,
+    /// outside the root of at least one EXTENSIBLE constraint, inside everything else
+    InExtension,
+    /// violates a non-extensible constraint (or the type itself)
+    Invalid(String),
+}
+
+impl Validity {
+    fn join(self, other: Validity) -> Validity {
+        match (self, other) {
+            (Validity::Invalid(w), _) | (_, Validity::Invalid(w)) => Validity::Invalid(w),
+            (Validity::InExtension, _) | (_, Validity::InExtension) => Validity::InExtension,
+            _ => Validity::InRoot,
+        }
+    }
+}
+
+fn size_validity(size: &Size, n: u64, what: &str) -> Validity {
+    if size.contains(n) {
+        Validity::InRoot
+    } else if size.ext() {
+        Validity::InExtension
+    } else {
+        Validity::Invalid(format!("{what} size {n} outside {size:?}"))
+    }
+}
+
+pub fn check_value(m: &Module, ty: &Ty, v: &Value) -> Validity {
+    let ty = m.resolve(ty);
+    match (ty, v) {
+        (Ty::Bool, Value::Bool(_)) | (Ty::Null, Value::Null) => Validity::InRoot,
+        (Ty::Int { range, .. }, Value::Int(i)) => match range {
+            None => Validity::InRoot,
+            Some(r) => {
+                let inside = r.lb().map_or(true, |l| *i >= l as i128) && r.ub().map_or(true, |u| *i <= u as i128);
+                if inside {
+                    Validity::InRoot
+                } else if r.ext {
+                    Validity::InExtension
+                } else {
+                    Validity::Invalid(format!("integer {i} outside {:?}..{:?}", r.lb(), r.ub()))
+                }
+            }
+        },
+        (Ty::Enum { root, ext }, Value::Enum(i)) => {
+            if *i < root.len() {
+                Validity::InRoot
+            } else if ext.as_ref().map_or(false, |e| *i < root.len() + e.len()) {
+                Validity::InExtension
+            } else {
+                Validity::Invalid("enumeration index out of range".into())
+            }
+        }
+        (Ty::BitStr { size, .. }, Value::Bits(b)) => size_validity(size, b.len() as u64, "BIT STRING"),
+        (Ty::OctStr { size, .. }, Value::Bytes(b)) => size_validity(size, b.len() as u64, "OCTET STRING"),
+        (Ty::Str { cs, size, .. }, Value::Str(s)) => {
+            if *cs != Charset::Utf8 {
+                let a = cs.alphabet();
+                if let Some((i, c)) = s.chars().enumerate().find(|(_, c)| !a.contains(c)) {
+                    return Validity::Invalid(format!("character {c:?} at {i} not permitted in {}", cs.asn()));
+                }
+            }
+            size_validity(size, s.chars().count() as u64, cs.asn())
+        }
+        (Ty::SeqOf { size, inner, .. }, Value::List(l)) => {
+            let mut r = size_validity(size, l.len() as u64, "SEQUENCE/SET OF");
+            for x in l {
+                r = r.join(check_value(m, inner, x));
+                if matches!(r, Validity::Invalid(_)) {
+                    break;
+                }
+            }
+            r
+        }
+        (Ty::SeqOf { size, inner, .. }, Value::Bytes(b)) => {
+            let mut r = size_validity(size, b.len() as u64, "SEQUENCE/SET OF");
+            for x in b {
+                r = r.join(check_value(m, inner, &Value::Int(*x as i128)));
+            }
+            r
+        }
+        (Ty::Seq { comps, ext_after, .. }, Value::Seq(vals)) => {
+            if comps.len() != vals.len() {
+                return Validity::Invalid("component count".into());
+            }
+            let nroot = ext_after.unwrap_or(comps.len());
+            let mut r = Validity::InRoot;
+            for (i, (c, val)) in comps.iter().zip(vals.iter()).enumerate() {
+                match val {
+                    None => {
+                        if i < nroot && c.presence == Presence::Mandatory {
+                            return Validity::Invalid(format!("mandatory component {} absent", c.name));
+                        }
+                    }
+                    Some(x) => r = r.join(check_value(m, &c.ty, x)),
+                }
+            }
+            r
+        }
+        (Ty::Choice { alts, .. }, Value::Choice(i, inner)) => {
+            if *i >= alts.len() {
+                return Validity::Invalid("alternative index out of range".into());
+            }
+            check_value(m, &alts[*i].ty, inner)
+        }
+        (t, v) => Validity::Invalid(format!("value {} does not fit type {}", v.short(), t.asn())),
+    }
+}
